@@ -19,6 +19,7 @@ META = {
             'MERGE/CHAIN MERGE are driven with an ASCII file (a protected-format file fails earlier with Direct statement in file). Line numbers shown by error '
             'messages/TRON are not counted as disclosure. Files are scanned for >= 4-byte fragments (a 3-byte match in ciphertext is chance).',
 }
+META['text'] += ' The SAVE actions are also aimed at character devices (LPT1:, SCRN:), whose file objects do not echo the requested file type.'
 
 ALPHA = b'QXZJKVWY'
 BASE_FILES = ('PROT.BAS', 'PLAIN.BAS', 'MRG.BAS', 'BL.BAS')
